@@ -166,6 +166,31 @@ class Executor:
             raise EOFError()
         self.buf += d
 
+    def _send(self, data, deadline):
+        """writes the plan with the same deadline as the reads: an executor that stops reading (it never does by itself; seen once
+        with a hang inside the ThreadSanitizer runtime) must not block the worker for ever"""
+        fd = self.p.stdin.fileno()
+        os.set_blocking(fd, False)
+        view = memoryview(data)
+        off = 0
+        try:
+            while off < len(view):
+                t = deadline - time.time()
+                if t <= 0:
+                    raise TimeoutError()
+                _, w, _ = select.select([], [fd], [], t)
+                if not w:
+                    raise TimeoutError()
+                try:
+                    off += os.write(fd, view[off:off + (1 << 16)])
+                except BlockingIOError:
+                    continue
+        finally:
+            try:
+                os.set_blocking(fd, True)
+            except OSError:
+                pass
+
     def _line(self, deadline):
         while True:
             i = self.buf.find(b"\n")
@@ -212,8 +237,7 @@ class Executor:
         try:
             # write in a way that cannot deadlock with a full stdout pipe: the executor reads the whole
             # plan before producing output
-            self.p.stdin.write(data)
-            self.p.stdin.flush()
+            self._send(data, deadline)
             while True:
                 l = self._line(deadline)
                 if l.startswith(b"R "):
